@@ -64,6 +64,8 @@ PROPS = {
         'mechanisms_required': ['ms.onBadTail', 'ms.onEnqueueRace', 'ms.onDequeueRace', 'basket.onTryAddBasket', 'basket.onAddBasket',
                                 'optimistic.onFixList', 'fc.onCombining', 'fc.onCollide', 'fc.onPassiveToCombiner'],
     },
+    'C12': {'jobs': seq_jobs('ringbuf', 4, 8, asan_scale=1.0, tsan_scale=1.0, threads=3),
+            'mechanisms_required': ['ring.wraps', 'ring.failed_push_full', 'ring.failed_pop_empty', 'byte.tail_markers']},
     'C07': {'jobs': seq_jobs('bounded', 5, 9), 'mechanisms_required': ['vyukov.enqueue_full', 'vyukov.dequeue_empty']},
     'C08': {'jobs': seq_jobs('bounded', 5, 5), 'mechanisms_required': ['segq.onSegmentCreated', 'segq.onSegmentDeleted', 'segq.onPushContended', 'segq.onPopContended']},
     'C09': {'jobs': seq_jobs('stack', 7, 13, threads=7, quick_scale=0.5),
